@@ -3,6 +3,7 @@ package streamsim
 import (
 	"errors"
 	"fmt"
+	"math"
 	"os"
 	"runtime"
 	"runtime/debug"
@@ -37,14 +38,14 @@ func (e *Engine) Facts() map[string]string {
 
 // run is the state of one simulated run.
 type run struct {
-	tape   *core.Tape
-	o      core.RunOpts
-	out    *core.Outcome
-	trace  []string
-	sig    *core.Hash64
-	log    *core.Hash64
-	batch  int
-	feats  map[string]string
+	tape         *core.Tape
+	o            core.RunOpts
+	out          *core.Outcome
+	trace        []string
+	sig          *core.Hash64
+	log          *core.Hash64
+	batch        int
+	feats        map[string]string
 	schemaEvents int
 }
 
@@ -130,7 +131,7 @@ func (o *obsRec) OnSchemaUpdate(recordName string, old, new *arrow.Schema) { o.e
 func (o *obsRec) OnDictionaryReset(recordName string, fieldPath string, indexType arrow.DataType, card, total uint64) {
 	o.ev("dict_reset")
 }
-func (o *obsRec) OnMetadataUpdate(recordName, metadataKey string) { o.ev("metadata_update") }
+func (o *obsRec) OnMetadataUpdate(recordName, metadataKey string)   { o.ev("metadata_update") }
 func (o *obsRec) OnRecord(arrow.Record, record_message.PayloadType) {}
 
 func (o *obsRec) take() []string {
@@ -296,12 +297,14 @@ type histPlan struct {
 	uniq     int
 	inDomain bool
 	bare     bool // no attributes / events / links / exemplars anywhere
+	allUniq  bool // big ramps: unique values only
+	narrow   int  // G.Narrow for every batch of the history
 }
 
 func (r *run) genBatch(hp *histPlan, i int) *batchIn {
 	t := r.tape
 	b := &batchIn{signal: hp.signals[t.Draw(core.Gen, len(hp.signals))], kind: "normal"}
-	g := &G{t: t, InDomain: hp.inDomain, Bare: hp.bare}
+	g := &G{t: t, InDomain: hp.inDomain, Bare: hp.bare, Narrow: hp.narrow}
 	switch {
 	case hp.ramp == "small" && t.Chance(core.Gen, 1, 4):
 		// many resources and scopes with unique names / schema URLs: the
@@ -323,12 +326,17 @@ func (r *run) genBatch(hp *histPlan, i int) *batchIn {
 		g.Plain = true
 		g.Uniq = &hp.uniq
 		g.UniqPct = []int{100, 50, 10}[t.Draw(core.Gen, 3)]
+		if hp.allUniq {
+			g.UniqPct = 100
+		}
 		g.MaxItems = 6000 + 3000*t.Draw(core.Gen, 4)
 		g.Budget = 40000
 	case t.Chance(core.Gen, 1, 10):
 		b.kind = "empty"
 		g.MaxItems = -1
-	case t.Chance(core.Gen, 1, 600):
+	case (r.o.Property == "C01" || r.o.Property == "C02" || r.o.Property == "C03" || r.o.Property == "C04") && t.Chance(core.Gen, 1, 600):
+		// round-trip properties only: a harness that decodes the same stream
+		// hundreds of times cannot afford such values
 		b.kind = "long-list-or-map"
 		g.Long = true
 	}
@@ -407,6 +415,18 @@ func (r *run) runStream() {
 	hp.ramp = []string{"", "small", "big"}[t.Weighted(core.Gen, rampW...)]
 	if hp.ramp == "big" && hp.nBatches < 6 {
 		hp.nBatches = 6 + t.Draw(core.Gen, 6)
+	}
+	if hp.ramp == "big" && prop == "C13" {
+		// the limit check wants the 16-bit limits crossed for certain: unique
+		// values only, enough batches, and the explicit 16-bit option as often
+		// as the default (which is the same number set another way)
+		hp.allUniq = true
+		if hp.nBatches < 9 {
+			hp.nBatches = 9
+		}
+		if t.Chance(core.Cfg, 1, 2) {
+			opt.Dict, opt.Limit, opt.NoDict = "uint16", math.MaxUint16, false
+		}
 	}
 	for k, v := range opt.Features() {
 		r.feats[k] = v
